@@ -2,6 +2,7 @@
 From Coq Require Import List NArith ZArith String Bool.
 From DT Require Import GenStatus GenEvent FsmTypes GenFsm Fsm FsmFacts C11Proofs.
 From DT Require Transport C16Proofs.
+From DT Require GenDecide DecideEq.
 Import ListNotations.
 
 Theorem C11_pause_flags_independent :
@@ -61,3 +62,13 @@ Theorem C11_stay_paused_does_not_terminate :
     C16Proofs.terminates (snd (Transport.tstep s (Transport.GIncomingResponse p rid (Some m) None) (a :: rest))) = false.
 Proof. exact C16Proofs.stay_paused_does_not_terminate. Qed.
 Print Assumptions C11_stay_paused_does_not_terminate.
+
+(* the derived views the theorems above are about are the accessors of the source: regenerated from
+   channels/channel_state.go (InitiatorPaused, ResponderPaused, BothPaused, SelfPaused) on every run *)
+Theorem C11_pause_views_are_the_sources :
+  forall c, GenDecide.gen_InitiatorPaused c = initiator_paused_view c /\
+            GenDecide.gen_ResponderPaused c = responder_paused_view c /\
+            GenDecide.gen_BothPaused c = both_paused_view c /\
+            GenDecide.gen_SelfPaused c = self_paused_view c.
+Proof. exact DecideEq.pause_views_are_source. Qed.
+Print Assumptions C11_pause_views_are_the_sources.
